@@ -115,6 +115,176 @@ theorem C04_warmstart_clamped (lbs ubs : List (Option Val)) (x : List Val) (j : 
     (clampVec lbs ubs x).getD j 0 = clampVal (lbs.getD j none) (ubs.getD j none) (x.getD j 0) := by
   simp [clampVec, List.getD_eq_getElem?_getD, hj]
 
+/-! ## Duals, basis statuses, IIS flags, presolve images: the per-graph certificate is sound
+
+`tracePost` / `tracePre` (Trace.lean) are run by the check on the REAL link graph of every conversion, for every
+original variable and constraint, and must return the origin the property demands (solver row `r` for a
+linear constraint delivered as row `r`; `rev (slack)` for the basis status of a range constraint converted to
+equality-plus-slack; …).  The theorems below say that such a certificate determines the transferred value
+for EVERY solver answer (all vector lengths) and EVERY history. -/
+
+theorem loaded_zero (prev : St) (sizes : Nat → Nat) (inputs : List (Nat × List Val)) (zero : Cell → Bool)
+    (hz : ∀ c, zero c = true → inputs.lookup c.1 = none) :
+    ∀ c, zero c = true → loadInto (clean prev) sizes inputs c = 0 := by
+  intro c hc
+  rw [loadInto_of_not_lookup _ _ _ _ (hz c hc)]
+  rfl
+
+/-- Postsolve: if the certificate for cell `c` is `o`, then after ANY postsolve call of kind `k` that returns,
+    `c` holds `o` evaluated on the loaded solver vectors. -/
+theorem C04_postsolve_origin (g : Graph) (k : Kind) (inputs : List (Nat × List Val)) (prev S' : St)
+    (zero : Cell → Bool) (hz : ∀ c, zero c = true → inputs.lookup c.1 = none) (c : Cell) (o : Origin)
+    (ht : tracePost k zero g.entries c = some o)
+    (hrun : runFrom g prev ⟨.post, k, inputs⟩ = some S') :
+    S' c = o.eval (loadInto (clean prev) g.size inputs) :=
+  tracePost_sound k zero _ (loaded_zero prev g.size inputs zero hz) g.entries c o S' ht hrun
+
+/-- Presolve: the same for the values handed to the solver (`tracePre` takes the reversed entry list). -/
+theorem C04_presolve_origin (g : Graph) (k : Kind) (inputs : List (Nat × List Val)) (prev S' : St)
+    (zero : Cell → Bool) (hz : ∀ c, zero c = true → inputs.lookup c.1 = none) (c : Cell) (o : Origin)
+    (ht : tracePre k zero g.entries.reverse c = some o)
+    (hrun : runFrom g prev ⟨.pre, k, inputs⟩ = some S') :
+    S' c = o.eval (loadInto (clean prev) g.size inputs) := by
+  simp only [runFrom, Option.some.injEq] at hrun
+  subst hrun
+  have := tracePre_sound k zero _ (loaded_zero prev g.size inputs zero hz) g.entries.reverse c o ht
+  simpa using this
+
+/-- Dual value: a constraint whose certificate (kind `sol`) is solver row `r` of group node `dc` receives exactly
+    `pi[r]` (zero if the solver's dual vector is shorter), also when the row is the equality of an
+    equality-plus-slack pair (`r2sPostOrigin .sol` ignores the slack). -/
+theorem C04_dual (g : Graph) (inputs : List (Nat × List Val)) (prev S' : St) (zero : Cell → Bool)
+    (hz : ∀ c, zero c = true → inputs.lookup c.1 = none) (c : Cell) (dc r : Nat) (pi : List Val)
+    (ht : tracePost .sol zero g.entries c = some (.init (dc, r)))
+    (hpi : inputs.lookup dc = some pi) (hr : r < g.size dc)
+    (hrun : runFrom g prev ⟨.post, .sol, inputs⟩ = some S') :
+    S' c = pi.getD r 0 := by
+  rw [C04_postsolve_origin g .sol inputs prev S' zero hz c _ ht hrun]
+  simp [Origin.eval, loadInto_of_lookup _ _ _ _ _ hpi, resized, hr]
+
+/-- Basis status with the slack mapping: certificate `rev (slack variable s)` ⇒ the range constraint receives the
+    slack's status with low ↔ upp exchanged (the solver's status of the equality row is forgotten). -/
+theorem C04_basis_slack (g : Graph) (inputs : List (Nat × List Val)) (prev S' : St) (zero : Cell → Bool)
+    (hz : ∀ c, zero c = true → inputs.lookup c.1 = none) (c : Cell) (dv s : Nat) (varstt : List Val)
+    (ht : tracePost .basis zero g.entries c = some (.rev (.init (dv, s))))
+    (hv : inputs.lookup dv = some varstt) (hs : s < g.size dv)
+    (hrun : runFrom g prev ⟨.post, .basis, inputs⟩ = some S') :
+    S' c = revBasis (varstt.getD s 0) := by
+  rw [C04_postsolve_origin g .basis inputs prev S' zero hz c _ ht hrun]
+  simp [Origin.eval, loadInto_of_lookup _ _ _ _ _ hv, resized, hs]
+
+/-- IIS flag with the slack mapping: slack low(1) ↦ upp(3), upp(3) ↦ low(1), fix(2) ↦ fix(2),
+    slack not in the IIS (0) ↦ the flag of the equality row. -/
+theorem C04_iis_slack (g : Graph) (inputs : List (Nat × List Val)) (prev S' : St) (zero : Cell → Bool)
+    (hz : ∀ c, zero c = true → inputs.lookup c.1 = none) (c : Cell) (dv s dc r : Nat) (iv ic : List Val)
+    (ht : tracePost .iis zero g.entries c = some (.iis (.init (dv, s)) (.init (dc, r))))
+    (hv : inputs.lookup dv = some iv) (hs : s < g.size dv)
+    (hc : inputs.lookup dc = some ic) (hr : r < g.size dc)
+    (hrun : runFrom g prev ⟨.post, .iis, inputs⟩ = some S') :
+    S' c = (if iv.getD s 0 = 1 then 3 else if iv.getD s 0 = 3 then 1 else if iv.getD s 0 = 2 then 2
+            else if iv.getD s 0 = 0 then ic.getD r 0 else 0) := by
+  rw [C04_postsolve_origin g .iis inputs prev S' zero hz c _ ht hrun]
+  simp only [Origin.eval, loadInto_of_lookup _ _ _ _ _ hv, loadInto_of_lookup _ _ _ _ _ hc, resized, hs, hr, if_true, iisVal]
+  generalize iv.getD s 0 = a
+  generalize ic.getD r 0 = b
+  by_cases h0 : a = 0
+  · subst h0; simp
+  · by_cases h1 : a = 1
+    · subst h1; simp
+    · by_cases h3 : a = 3
+      · subst h3; simp
+      · by_cases h2 : a = 2
+        · subst h2; simp
+        · simp [h0, h1, h2, h3]
+
+/-- **H4 chain, plain form**: an original constraint linked by a copy entry to an intermediate constraint that a later copy
+    entry links to solver row `row`; nobody else writes the two cells after them.  Then for every kind the certificate
+    is the solver row itself: dual, basis status, IIS flag, generic suffix of the row, unchanged. -/
+theorem C04_chain_copy_copy (k : Kind) (zero : Cell → Bool) (A M T : List Entry) (s1 d1 s2 d2 : Rng) (j1 j2 : Nat)
+    (hj1 : j1 < d1.len) (hj2 : j2 < d2.len) (hn1 : s1.node ≠ d1.node) (hn2 : s2.node ≠ d2.node)
+    (hmid : (d1.node, d1.beg + j1) = (s2.node, s2.beg + j2))
+    (hA : ∀ e ∈ A, e.postWrites (s1.node, s1.beg + j1) = false)
+    (hM : ∀ e ∈ M, e.postWrites (d1.node, d1.beg + j1) = false)
+    (hT : ∀ e ∈ T, e.postWrites (d2.node, d2.beg + j2) = false) :
+    tracePost k zero (A ++ .copy s1 d1 :: (M ++ .copy s2 d2 :: T)) (s1.node, s1.beg + j1)
+      = some (.init (d2.node, d2.beg + j2)) := by
+  rw [tracePost_skip k zero A _ _ hA, tracePost_copy_head k zero s1 d1 _ j1 hj1 hn1,
+      tracePost_skip k zero M _ _ hM, hmid, tracePost_copy_head k zero s2 d2 _ j2 hj2 hn2,
+      tracePost_none_written k zero T _ hT]
+
+/-- **H4 chain, slack form**: original constraint —copy→ range constraint `cs` —Range2Slack→ (equality `ct`, slack `vs`),
+    `ct` —copy→ solver row; nobody else writes `cs` after the Range2Slack entry, `ct` between it and the final copy,
+    the row and the slack variable.  The certificate is the documented slack mapping `r2sPostOrigin`
+    (dual: the row's; basis: reversed slack status; IIS: slack flag exchanged, else the row's). -/
+theorem C04_chain_copy_slack_copy (k : Kind) (zero : Cell → Bool) (A M N T : List Entry) (s1 d1 s2 d2 : Rng) (j1 j2 : Nat)
+    (cs ct vs : Cell) (sd : SlackData)
+    (hj1 : j1 < d1.len) (hj2 : j2 < d2.len) (hn1 : s1.node ≠ d1.node) (hn2 : s2.node ≠ d2.node)
+    (hcs : (d1.node, d1.beg + j1) = cs) (hct : ct = (s2.node, s2.beg + j2))
+    (hzero : zero cs = true) (hdist : r2sDistinct cs ct vs = true)
+    (hA : ∀ e ∈ A, e.postWrites (s1.node, s1.beg + j1) = false)
+    (hM : ∀ e ∈ M, e.postWrites cs = false)
+    (hfresh : ∀ e ∈ N ++ .copy s2 d2 :: T, e.postWrites cs = false)
+    (hN : ∀ e ∈ N, e.postWrites ct = false)
+    (hT : ∀ e ∈ T, e.postWrites (d2.node, d2.beg + j2) = false)
+    (hvs : ∀ e ∈ N ++ .copy s2 d2 :: T, e.postWrites vs = false) :
+    tracePost k zero (A ++ .copy s1 d1 :: (M ++ .r2s cs ct vs sd :: (N ++ .copy s2 d2 :: T))) (s1.node, s1.beg + j1)
+      = some (r2sPostOrigin k (.init (d2.node, d2.beg + j2)) (.init vs)) := by
+  rw [tracePost_skip k zero A _ _ hA, tracePost_copy_head k zero s1 d1 _ j1 hj1 hn1, hcs,
+      tracePost_skip k zero M _ _ hM]
+  have hw : (Entry.r2s cs ct vs sd).postWrites cs = true := by simp [Entry.postWrites]
+  have hall : (N ++ .copy s2 d2 :: T).all (fun e' => !e'.postWrites cs) = true := by
+    simp only [List.all_eq_true, Bool.not_eq_eq_eq_not, Bool.not_true]; exact hfresh
+  simp only [tracePost, hw, if_true, hzero, hdist, hall, Bool.and_self]
+  rw [tracePost_skip k zero N _ _ hN, hct, tracePost_copy_head k zero s2 d2 _ j2 hj2 hn2,
+      tracePost_none_written k zero T _ hT, tracePost_none_written k zero _ vs hvs]
+
+/-- Warm start: the slack variable of a converted range constraint receives the lower slack of the constraint the
+    entry carries, at the presolved point (then `clampVec` moves it into `[0, ub-lb]`).  Which constraint the REAL
+    converter puts there is checked per run (`rangecon.used` vs `rangecon.own`): for quadratic range constraints
+    it is an unrelated linear one — known finding C04-quadrange-slack-warmstart. -/
+theorem C04_warmstart_slack_entry (S : St) (cs ct vs : Cell) (sd : SlackData) (hd : ct ≠ vs) (h0 : S vs = 0) :
+    (preEntry .sol (.r2s cs ct vs sd) S) vs = lowerSlack (S.setNum ct (S cs)) vs.1 sd := by
+  simp [preEntry, St.setNum_other _ _ (Ne.symm hd), h0]
+
+/-! ### The full-strength IIS statement is false on the code as it exists
+
+    theorem C04_iis_total : ∀ g prev inputs, ∃ S', runFrom g prev ⟨.post, .iis, inputs⟩ = some S'
+
+`RangeCon2Slack::PostsolveIISEntry` raises ("Unknown IIS status for a range constraint slack") when the
+solver reports a status other than non/low/fix/upp for a range-slack variable; then NO item receives an IIS
+flag.  `C04_post_total` is the proved partial statement (all kinds except IIS); `C04_iis_returns_partial`
+the IIS part under the hypothesis; the counterexample is replayed against the real code by the check. -/
+
+/-- the graph of `lb <= body <= ub` converted to `body + s = ub`: nodes 0 src_vars, 1 src_cons, 2 _linrange,
+    3 _lineq, 4 dest_vars, 5 dest_cons(3) -/
+def exampleGraph : Graph :=
+  { entries := [.copy ⟨0, 0, 2⟩ ⟨4, 0, 2⟩, .copy ⟨1, 0, 1⟩ ⟨2, 0, 1⟩,
+                .r2s (2, 0) (3, 0) (4, 2) ⟨[(1, 0), (1, 1)], [], 1⟩, .copy ⟨3, 0, 1⟩ ⟨5, 0, 1⟩],
+    sizes := [2, 1, 1, 1, 3, 1] }
+
+theorem C04_counterexample_iis_unknown_slack_status :
+    runFrom exampleGraph ⟨fun _ => 0⟩ ⟨.post, .iis, [(4, [0, 0, 4]), (5, [1])]⟩ = none := by
+  decide
+
+/-- IIS postsolve returns whenever every loaded value is one of non/low/fix/upp … stated for the entry: -/
+theorem C04_iis_returns_partial (S : St) (cs ct vs : Cell) (sd : SlackData)
+    (h : S vs = 0 ∨ S vs = 1 ∨ S vs = 2 ∨ S vs = 3) : ∃ S', postEntry .iis (.r2s cs ct vs sd) S = some S' := by
+  simp only [postEntry, iisVal]
+  rcases h with h | h | h | h <;> simp [h]
+
+/-! ### Non-vacuity: the hypotheses hold and the certificates compute on the example graph -/
+
+example : exampleGraph.inBounds = true := by decide
+example : exampleGraph.wfVars 0 4 2 = true := by decide
+example : tracePost .sol (fun c => c.1 < 4) exampleGraph.entries (1, 0) = some (.init (5, 0)) := by decide
+example : tracePost .basis (fun c => c.1 < 4) exampleGraph.entries (1, 0) = some (.rev (.init (4, 2))) := by decide
+example : tracePost .iis (fun c => c.1 < 4) exampleGraph.entries (1, 0) = some (.iis (.init (4, 2)) (.init (5, 0))) := by decide
+example : tracePre .basis (fun c => 2 ≤ c.1) exampleGraph.entries.reverse (4, 2) = some (.rev (.init (1, 0))) := by decide
+example : tracePre .basis (fun c => 2 ≤ c.1) exampleGraph.entries.reverse (5, 0) = some (.const 5) := by decide
+example : tracePre .sol (fun c => 2 ≤ c.1) exampleGraph.entries.reverse (5, 0) = some (.init (1, 0)) := by decide
+example : (runFrom exampleGraph ⟨fun _ => 7⟩ ⟨.post, .basis, [(4, [1, 3, 4]), (5, [5])]⟩).map
+    (fun S => (readNode S 0 2, readNode S 1 1)) = some ([1, 3], [3]) := by decide
+
 /-! ## History independence -/
 
 /-- The result of a transfer does not depend on what the value nodes contained before it. -/
